@@ -3,9 +3,9 @@ package rules
 import (
 	"fmt"
 	"go/token"
-	"sort"
 	"go/types"
 	"regexp"
+	"sort"
 	"strings"
 
 	"golang.org/x/tools/go/ssa"
@@ -324,29 +324,35 @@ func (c *Ctx) CODEC(rule string) []report.Obligation {
 			fmt.Sprintf("both use %q", cut), fmt.Sprintf("SSHKey.MarshalYAML renders `id%spath` but the list form is parsed by cutting on %q: the rendering does not reload", strings.Join(rendered, "|"), cut)))
 	}
 	// host lists: the separator passed to AsList by the marshallers is one the decoder splits on
+	// the separators the decoder splits on: the constant strings it hands to strings.Cut / Split / Index,
+	// directly or by ranging over a literal list (local or package-level)
 	seps := map[string]bool{}
-	if pk := c.P.SSAByRel["types"]; pk != nil {
-		if g, ok := pk.Members["hostListSerapators"].(*ssa.Global); ok {
-			for _, b := range pk.Func("init").Blocks {
-				for _, in := range b.Instrs {
-					if st, ok := in.(*ssa.Store); ok && st.Addr == ssa.Value(g) {
-						if sl, ok := st.Val.(*ssa.Slice); ok {
-							if al, ok := sl.X.(*ssa.Alloc); ok {
-								for _, r := range *al.Referrers() {
-									if ia, ok := r.(*ssa.IndexAddr); ok {
-										for _, rr := range *ia.Referrers() {
-											if s2, ok := rr.(*ssa.Store); ok {
-												if str, ok := prog.ConstString(s2.Val); ok {
-													seps[str] = true
-												}
-											}
-										}
-									}
-								}
-							}
-						}
-					}
-				}
+	var decoders []*ssa.Function
+	seenD := map[*ssa.Function]bool{}
+	var addD func(f *ssa.Function, d int)
+	addD = func(f *ssa.Function, d int) {
+		if f == nil || seenD[f] || d == 0 || f.Blocks == nil {
+			return
+		}
+		seenD[f] = true
+		decoders = append(decoders, f)
+		for _, cs := range callSites(f, func(com *ssa.CallCommon) bool {
+			cal := com.StaticCallee()
+			return cal != nil && c.P.InModule(cal) && strings.HasPrefix(c.P.FuncID(cal), "types.")
+		}) {
+			addD(cs.Common().StaticCallee(), d-1)
+		}
+	}
+	for _, dn := range []string{"types.NewHostsList", "types.(*HostsList).DecodeMapstructure"} {
+		addD(c.P.Func(dn), 3)
+	}
+	for _, df := range decoders {
+		for _, cs := range callSites(df, func(com *ssa.CallCommon) bool {
+			sn := staticName(com)
+			return sn == "strings.Cut" || sn == "strings.SplitN" || sn == "strings.Split" || sn == "strings.Index" || sn == "strings.Contains"
+		}) {
+			for _, sv := range stringValuesOf(cs.Common().Args[1], 5) {
+				seps[sv] = true
 			}
 		}
 	}
@@ -1371,6 +1377,27 @@ func (c *Ctx) LOOKUP(rule string, pkgs ...string) []report.Obligation {
 			}
 		}
 	}
+	// LOOKUP-3: a bare `KEY` line inherits from the lookup, whatever the file assigned before: the statement loop
+	// of the dotenv parser fills its result map and never reads it (earlier lines are consulted only by the
+	// variable expansion, after the lookup)
+	if inPkgs("dotenv.x") {
+		if pf := c.P.Func("dotenv.(*parser).parse"); pf != nil {
+			outMap := paramByType(pf, "map[string]string")
+			var rd ssa.Instruction
+			for _, b := range pf.Blocks {
+				for _, in := range b.Instrs {
+					if lk, ok := in.(*ssa.Lookup); ok && sameParam(lk.X, outMap) {
+						rd = lk
+					}
+				}
+			}
+			if rd == nil {
+				out = append(out, okOb(rule+"-3", "dotenv.(*parser).parse :: the statement loop does not read the map it fills", c.P.Pos(pf.Pos()), "no lookup in the result map: a bare key is resolved by the lookup function only"))
+			} else {
+				out = append(out, bad(rule+"-3", "dotenv.(*parser).parse :: the statement loop does not read the map it fills", c.P.InstrPos(rd), "the statement loop reads a value assigned by an earlier line: a bare `KEY` (or whatever this read decides) prefers the file over the lookup"))
+			}
+		}
+	}
 	if n1 == 0 || n2 == 0 {
 		out = append(out, bad(rule, "lookup sites", "", fmt.Sprintf("calls of lookup function values: %d, lookup functions defined: %d: the rule sees nothing", n1, n2)))
 	}
@@ -1437,6 +1464,13 @@ func (c *Ctx) URLCTX(rule string) []report.Obligation {
 			}
 			if factHolds(r.Block(), isSubstr) {
 				good = true
+			}
+			// `if strings.Contains(v, "://") || otherTest(v) { return v, nil }`: the return block is entered straight
+			// from the true edge of the substring test (and from the other test), without being dominated by it
+			for _, p := range r.Block().Preds {
+				if iff, ok := p.Instrs[len(p.Instrs)-1].(*ssa.If); ok && p.Succs[0] == r.Block() && isSubstr(iff.Cond, true) {
+					good = true
+				}
 			}
 		}
 		out = append(out, verdict(good, rule, c.P.FuncID(fn)+" :: any scheme:// is returned unchanged", c.P.Pos(fn.Pos()),
@@ -1926,5 +1960,572 @@ func (c *Ctx) NUMSIGN(rule string) []report.Obligation {
 	if n == 0 {
 		out = append(out, bad(rule, "types :: decoders of signed integer types", "", "no decoder of a signed integer model type found: the rule sees nothing"))
 	}
+	return out
+}
+
+// ---------------------------------------------------------------------------
+// Value-shaped clauses with a structural core (round 5).
+// ---------------------------------------------------------------------------
+
+// INCENV (C06): without a declared env_file, an included project reads the `.env` of its project directory:
+// the path joined with ".env" in ApplyInclude is the entry's ProjectDirectory.
+func (c *Ctx) INCENV(rule string) []report.Obligation {
+	f := c.P.Func("loader.ApplyInclude")
+	if f == nil {
+		return []report.Obligation{anchorViolation(rule, "loader.ApplyInclude")}
+	}
+	var out []report.Obligation
+	n := 0
+	// ApplyInclude itself and the loader helpers it delegates to (one level), with the arguments they receive
+	type site struct {
+		fn   *ssa.Function
+		call ssa.CallInstruction // the call from ApplyInclude, nil for ApplyInclude itself
+	}
+	sites := []site{{f, nil}}
+	for _, hc := range callSites(f, func(com *ssa.CallCommon) bool {
+		cal := com.StaticCallee()
+		return cal != nil && c.P.InModule(cal) && strings.HasPrefix(c.P.FuncID(cal), "loader.") && cal.Blocks != nil
+	}) {
+		sites = append(sites, site{hc.Common().StaticCallee(), hc})
+	}
+	for _, st := range sites {
+		g := st.fn
+		for _, cs := range callSites(g, func(com *ssa.CallCommon) bool { return staticName(com) == "path/filepath.Join" }) {
+			sl, ok := cs.Common().Args[0].(*ssa.Slice)
+			if !ok {
+				continue
+			}
+			al, ok := sl.X.(*ssa.Alloc)
+			if !ok {
+				continue
+			}
+			var elems = map[int64]ssa.Value{}
+			for _, r := range *al.Referrers() {
+				if ia, ok := r.(*ssa.IndexAddr); ok {
+					k, _ := constInt(ia.Index)
+					for _, rr := range *ia.Referrers() {
+						if st, ok := rr.(*ssa.Store); ok && st.Addr == ssa.Value(ia) {
+							elems[k] = st.Val
+						}
+					}
+				}
+			}
+			if s, ok := prog.ConstString(elems[1]); !ok || s != ".env" {
+				continue
+			}
+			n++
+			dir := elems[0]
+			// inside a helper: the directory is a parameter, bound at the call in ApplyInclude
+			if pa, isP := dir.(*ssa.Parameter); isP && st.call != nil {
+				for i, gp := range g.Params {
+					if gp == pa && i < len(st.call.Common().Args) {
+						dir = st.call.Common().Args[i]
+					}
+				}
+			}
+			out = append(out, verdict(loadedField(dir) == "ProjectDirectory", rule, "ApplyInclude :: default .env taken from the project directory", c.P.InstrPos(cs),
+				"filepath.Join(r.ProjectDirectory, \".env\")", "the default .env of an included project is looked for in "+c.P.KeyTerm(dir, 3)+", not in its project directory"))
+		}
+	}
+	if n == 0 {
+		out = append(out, bad(rule, "ApplyInclude :: default .env", c.P.Pos(f.Pos()), "no filepath.Join(dir, \".env\") in ApplyInclude: the rule sees nothing"))
+	}
+	return out
+}
+
+// SRCEXCL (C10): "several of its mutually exclusive sources" is an error whatever else the resource carries: in
+// the source checker of package validation, the error returned when more than one source is counted does not
+// depend on a lookup of `driver` or `external`.
+func (c *Ctx) SRCEXCL(rule string) []report.Obligation {
+	var out []report.Obligation
+	n := 0
+	for _, fn := range c.P.Funcs {
+		if !strings.HasPrefix(c.P.FuncID(fn), "validation.") {
+			continue
+		}
+		for _, r := range returnsOf(fn) {
+			if len(r.Results) != 1 || !c.dyn.definitelyNonNil(retValue(r, 0), r.Block(), 2) {
+				continue
+			}
+			// the return taken when the count exceeds one
+			several := factHolds(r.Block(), func(cond ssa.Value, val bool) bool {
+				bo, ok := cond.(*ssa.BinOp)
+				if !ok {
+					return false
+				}
+				k, isC := constInt(bo.Y)
+				return isC && (bo.Op == token.GTR && k == 1 && val || bo.Op == token.GEQ && k == 2 && val || bo.Op == token.LEQ && k == 1 && !val || bo.Op == token.LSS && k == 2 && !val)
+			})
+			if !several {
+				continue
+			}
+			n++
+			var offending []string
+			for _, f := range prog.DominatingFacts(r.Block()) {
+				var lk *ssa.Lookup
+				switch x := f.Cond.(type) {
+				case *ssa.Extract:
+					lk, _ = x.Tuple.(*ssa.Lookup)
+				case *ssa.BinOp:
+					for _, side := range []ssa.Value{x.X, x.Y} {
+						if ex, ok := side.(*ssa.Extract); ok {
+							if l2, ok := ex.Tuple.(*ssa.Lookup); ok {
+								lk = l2
+							}
+						}
+						if l2, ok := side.(*ssa.Lookup); ok {
+							lk = l2
+						}
+					}
+				}
+				if lk != nil {
+					if k, ok := prog.ConstString(lk.Index); ok && (k == "driver" || k == "external") {
+						offending = append(offending, "`"+k+"`")
+					}
+				}
+			}
+			sort.Strings(offending)
+			out = append(out, verdict(len(offending) == 0, rule, c.P.FuncID(fn)+" :: several sources rejected unconditionally", c.P.InstrPos(r),
+				"the error for more than one source does not depend on driver / external", "the error for more than one source is only reached after a test of "+strings.Join(offending, ", ")+": a resource with a driver or marked external may combine file, environment and content"))
+		}
+	}
+	if n == 0 {
+		out = append(out, bad(rule, "validation :: several-sources error", "", "no error return on `count > 1` in package validation: the rule sees nothing"))
+	}
+	return out
+}
+
+// SIGNCMP (C09): the renderers choose between the spellings of a value with tests that treat negative numbers
+// like any other non-zero number (a single ulimit of -1 means unlimited): in the MarshalYAML / MarshalJSON
+// methods of package types and the helpers they call, no signed integer field is compared with zero by an
+// ordering comparison.
+func (c *Ctx) SIGNCMP(rule string) []report.Obligation {
+	var out []report.Obligation
+	seen := map[*ssa.Function]bool{}
+	var fns []*ssa.Function
+	var add func(f *ssa.Function, d int)
+	add = func(f *ssa.Function, d int) {
+		if f == nil || seen[f] || d == 0 || f.Blocks == nil || !strings.HasPrefix(c.P.FuncID(f), "types.") {
+			return
+		}
+		seen[f] = true
+		fns = append(fns, f)
+		for _, cs := range callSites(f, func(com *ssa.CallCommon) bool { return com.StaticCallee() != nil && c.P.InModule(com.StaticCallee()) }) {
+			add(cs.Common().StaticCallee(), d-1)
+		}
+	}
+	for _, f := range c.P.MethodsNamed("MarshalYAML", "MarshalJSON") {
+		add(f, 3)
+	}
+	n := 0
+	for _, f := range fns {
+		for _, b := range f.Blocks {
+			for _, in := range b.Instrs {
+				bo, ok := in.(*ssa.BinOp)
+				if !ok {
+					continue
+				}
+				switch bo.Op {
+				case token.GTR, token.GEQ, token.LSS, token.LEQ:
+				default:
+					continue
+				}
+				fld, other := bo.X, bo.Y
+				if loadedField(fld) == "" {
+					fld, other = bo.Y, bo.X
+				}
+				k, isC := constInt(other)
+				bt, isB := fld.Type().Underlying().(*types.Basic)
+				if loadedField(fld) == "" || !isC || (k != 0 && k != 1) || !isB || bt.Info()&types.IsInteger == 0 || bt.Info()&types.IsUnsigned != 0 {
+					continue
+				}
+				n++
+				out = append(out, bad(rule, c.P.FuncID(f)+" :: "+loadedField(fld)+" compared with zero by sign", c.P.InstrPos(bo),
+					"a renderer decides by the sign of "+loadedField(fld)+": a negative value (-1, the usual `unlimited` sentinel) takes the branch meant for `not set` and is rendered in a form that does not reload to the same value"))
+			}
+		}
+	}
+	out = append(out, report.Obligation{Rule: rule, Key: "renderers :: no sign test of an integer field", Status: report.Discharged,
+		Why: fmt.Sprintf("%d functions reachable from the marshallers of package types inspected, %d sign tests", len(fns), n)})
+	return out
+}
+
+// LOGMERGE (C04): logging is merged key by key unless both sides name a driver and the drivers differ. The
+// presence of `driver` is looked up with comma-ok on both sides, and both flags take part in the decision.
+func (c *Ctx) LOGMERGE(rule string) []report.Obligation {
+	f := c.P.Func("override.mergeLogging")
+	if f == nil {
+		return []report.Obligation{anchorViolation(rule, "override.mergeLogging")}
+	}
+	fns := []*ssa.Function{f}
+	for _, cs := range callSites(f, func(com *ssa.CallCommon) bool {
+		cal := com.StaticCallee()
+		return cal != nil && c.P.InModule(cal) && strings.HasPrefix(c.P.FuncID(cal), "override.") && c.P.RefName(cal) != "mergeMappings"
+	}) {
+		fns = append(fns, cs.Common().StaticCallee())
+	}
+	used := 0
+	for _, g := range fns {
+		for _, b := range g.Blocks {
+			for _, in := range b.Instrs {
+				lk, ok := in.(*ssa.Lookup)
+				if !ok || !lk.CommaOk {
+					continue
+				}
+				if k, _ := prog.ConstString(lk.Index); k != "driver" {
+					continue
+				}
+				for _, r := range *lk.Referrers() {
+					if ex, ok := r.(*ssa.Extract); ok && ex.Index == 1 {
+						for _, u := range *ex.Referrers() {
+							switch u.(type) {
+							case *ssa.If, *ssa.BinOp, *ssa.Phi, *ssa.UnOp, *ssa.Return:
+								used++
+							}
+						}
+					}
+				}
+			}
+		}
+	}
+	return []report.Obligation{verdict(used >= 2, rule, "mergeLogging :: presence of driver consulted on both sides", c.P.Pos(f.Pos()),
+		"two comma-ok lookups of `driver` whose flags take part in the decision", "the decision to replace the logging mapping does not consult the presence of `driver` on both sides: when only one side names a driver the base options are dropped instead of merged")}
+}
+
+// BOOLTAB (C08): the text-to-boolean conversion of the loader follows the YAML 1.1 table. In loader.toBoolean
+// every successful result is a constant, reached from comparisons of the lower-cased text with constants, and
+// the constants leading to true are {true, y, yes, on}, those leading to false {false, n, no, off}.
+func (c *Ctx) BOOLTAB(rule string) []report.Obligation {
+	f := c.P.Func("loader.toBoolean")
+	if f == nil {
+		return []report.Obligation{anchorViolation(rule, "loader.toBoolean")}
+	}
+	table := map[string]string{}
+	problem := ""
+	// each equality test against a constant: where does its true edge lead?
+	for _, b := range f.Blocks {
+		iff, ok := b.Instrs[len(b.Instrs)-1].(*ssa.If)
+		if !ok {
+			continue
+		}
+		bo, ok := iff.Cond.(*ssa.BinOp)
+		if !ok || bo.Op != token.EQL {
+			continue
+		}
+		sv, isC := prog.ConstString(bo.Y)
+		if !isC {
+			sv, isC = prog.ConstString(bo.X)
+		}
+		if !isC {
+			continue
+		}
+		// follow the true edge through unconditional jumps to a return
+		blk := b.Succs[0]
+		for i := 0; i < 6; i++ {
+			if _, isRet := blk.Instrs[len(blk.Instrs)-1].(*ssa.Return); isRet {
+				break
+			}
+			if _, isJump := blk.Instrs[len(blk.Instrs)-1].(*ssa.Jump); isJump && len(blk.Succs) == 1 {
+				blk = blk.Succs[0]
+				continue
+			}
+			break
+		}
+		ret, isRet := blk.Instrs[len(blk.Instrs)-1].(*ssa.Return)
+		if !isRet {
+			problem = "the case " + sv + " does not lead straight to a return"
+			continue
+		}
+		rv := retValue(ret, 0)
+		if mi, ok := rv.(*ssa.MakeInterface); ok {
+			rv = mi.X
+		}
+		if bv, isB := constBool(rv); isB {
+			table[sv] = fmt.Sprint(bv)
+		} else if !isNilOrConst(retValue(ret, 1)) {
+			table[sv] = "error"
+		} else {
+			table[sv] = "computed"
+			problem = "the result for " + sv + " is computed, not a constant"
+		}
+	}
+	want := map[string]string{"true": "true", "y": "true", "yes": "true", "on": "true", "false": "false", "n": "false", "no": "false", "off": "false"}
+	var diffs []string
+	for k, v := range want {
+		if table[k] != v {
+			diffs = append(diffs, fmt.Sprintf("%q -> %s (YAML 1.1: %s)", k, orNone(table[k]), v))
+		}
+	}
+	for k, v := range table {
+		if _, known := want[k]; !known && v != "error" {
+			diffs = append(diffs, fmt.Sprintf("%q -> %s (not a boolean text)", k, v))
+		}
+	}
+	sort.Strings(diffs)
+	if problem != "" {
+		diffs = append(diffs, problem)
+	}
+	return []report.Obligation{verdict(len(diffs) == 0, rule, "toBoolean :: YAML 1.1 truth table", c.P.Pos(f.Pos()),
+		"true/y/yes/on lead to the constant true, false/n/no/off to the constant false", "the conversion departs from the YAML 1.1 table: "+strings.Join(diffs, "; "))}
+}
+
+func orNone(s string) string {
+	if s == "" {
+		return "no case"
+	}
+	return s
+}
+
+// PROFSTAR (C15): `*` selects everything when it is listed, wherever in the list. In the profile predicate
+// (ServiceConfig.HasProfile and what it calls) the comparison with "*" is applied to every element of the
+// selected profiles: to the element of a loop over them, or through slices.Contains on them - never to one
+// fixed position.
+func (c *Ctx) PROFSTAR(rule string) []report.Obligation {
+	f := c.P.Func("types.(ServiceConfig).HasProfile")
+	if f == nil {
+		return []report.Obligation{anchorViolation(rule, "types.(ServiceConfig).HasProfile")}
+	}
+	prof := paramByType(f, "[]string")
+	good, n, why := false, 0, "no comparison with \"*\" found"
+	for _, b := range f.Blocks {
+		for _, in := range b.Instrs {
+			switch x := in.(type) {
+			case *ssa.BinOp:
+				if x.Op != token.EQL && x.Op != token.NEQ {
+					continue
+				}
+				other := x.X
+				if s, ok := prog.ConstString(x.Y); !ok || s != "*" {
+					if s, ok := prog.ConstString(x.X); !ok || s != "*" {
+						continue
+					}
+					other = x.Y
+				}
+				n++
+				// an element of the parameter at a position that varies (a loop), not a constant one
+				if ld, ok := other.(*ssa.UnOp); ok {
+					if ia, ok := ld.X.(*ssa.IndexAddr); ok && sameParam(ia.X, prof) {
+						if _, isConst := ia.Index.(*ssa.Const); isConst {
+							why = "\"*\" is only looked for at a fixed position of the list"
+						} else {
+							good = true
+						}
+					}
+				}
+			case *ssa.Call:
+				if strings.HasSuffix(staticName(&x.Call), "slices.Contains") && len(x.Call.Args) == 2 && sameParam(x.Call.Args[0], prof) {
+					if s, ok := prog.ConstString(x.Call.Args[1]); ok && s == "*" {
+						n++
+						good = true
+					}
+				}
+			}
+		}
+	}
+	// the wildcard test must not be tied to the length of the list
+	if good {
+		for _, b := range f.Blocks {
+			for _, in := range b.Instrs {
+				if bo, ok := in.(*ssa.BinOp); ok && (bo.Op == token.EQL) {
+					if call, ok := bo.X.(*ssa.Call); ok {
+						if bi, isB := call.Call.Value.(*ssa.Builtin); isB && bi.Name() == "len" && sameParam(call.Call.Args[0], prof) {
+							if k, isC := constInt(bo.Y); isC && k == 1 {
+								good, why = false, "the wildcard is tied to a list of length one"
+							}
+						}
+					}
+				}
+			}
+		}
+	}
+	return []report.Obligation{verdict(good, rule, "HasProfile :: `*` honoured anywhere in the list", c.P.Pos(f.Pos()),
+		"every element of the selected profiles is compared with \"*\"", why+": `*` listed next to another profile no longer enables every service")}
+}
+
+// SHELLSPLIT (C03): the string spelling of command / entrypoint is split into words by the shell-words parser
+// only. In the decoder of ShellCommand (and its helpers) no other splitter (strings.Fields / Split / FieldsFunc)
+// is applied to the text, and shellwords.Parse is called.
+func (c *Ctx) SHELLSPLIT(rule string) []report.Obligation {
+	f := c.P.Func("types.(*ShellCommand).DecodeMapstructure")
+	if f == nil {
+		return []report.Obligation{anchorViolation(rule, "types.(*ShellCommand).DecodeMapstructure")}
+	}
+	fns := []*ssa.Function{f}
+	for _, cs := range callSites(f, func(com *ssa.CallCommon) bool {
+		cal := com.StaticCallee()
+		return cal != nil && c.P.InModule(cal) && strings.HasPrefix(c.P.FuncID(cal), "types.")
+	}) {
+		fns = append(fns, cs.Common().StaticCallee())
+	}
+	parses := false
+	var other []string
+	for _, g := range fns {
+		for _, cs := range callSites(g, func(com *ssa.CallCommon) bool { return com.StaticCallee() != nil }) {
+			sn := staticName(cs.Common())
+			switch {
+			case strings.HasSuffix(sn, "shellwords.Parse") || strings.Contains(sn, "shellwords.(*Parser).Parse"):
+				parses = true
+			case sn == "strings.Fields" || sn == "strings.FieldsFunc" || sn == "strings.Split" || sn == "strings.SplitN":
+				other = append(other, sn+" ["+c.P.InstrPos(cs)+"]")
+			}
+		}
+	}
+	sort.Strings(other)
+	return []report.Obligation{verdict(parses && len(other) == 0, rule, "ShellCommand :: words split by the shell-words parser only", c.P.Pos(f.Pos()),
+		"shellwords.Parse is the only splitter applied to the command text", "the command text is (also) split by "+strings.Join(other, ", ")+pick(parses, "", "; shellwords.Parse is not called")+": blanks that the shell grammar does not treat as separators split words, or quoting is not honoured")}
+}
+
+// NETPRES (C11): a service uses the `default` network when the key is there, with or without settings (the
+// short list syntax and a bare `default:` both leave a null value). In the function of package loader that adds
+// the implicit default network, every lookup of the constant key "default" is a comma-ok lookup whose presence
+// flag is what is branched on; no branch compares the looked-up value with nil.
+func (c *Ctx) NETPRES(rule string) []report.Obligation {
+	var out []report.Obligation
+	n := 0
+	for _, fn := range c.P.Funcs {
+		if !strings.HasPrefix(c.P.FuncID(fn), "loader.") {
+			continue
+		}
+		for _, b := range fn.Blocks {
+			for _, in := range b.Instrs {
+				lk, ok := in.(*ssa.Lookup)
+				if !ok {
+					continue
+				}
+				if k, _ := prog.ConstString(lk.Index); k != "default" {
+					continue
+				}
+				n++
+				good := lk.CommaOk
+				why := "presence decided by the comma-ok flag"
+				// the value must not be compared with nil to decide a branch
+				var vals []ssa.Value
+				if lk.CommaOk {
+					for _, r := range *lk.Referrers() {
+						if ex, ok := r.(*ssa.Extract); ok && ex.Index == 0 {
+							vals = append(vals, ex)
+						}
+					}
+				} else {
+					vals = append(vals, lk)
+				}
+				for _, v := range vals {
+					for _, r := range *v.Referrers() {
+						if bo, ok := r.(*ssa.BinOp); ok && (prog.IsNilConst(bo.X) || prog.IsNilConst(bo.Y)) {
+							good, why = false, "the looked-up value is compared with nil"
+						}
+					}
+				}
+				if !lk.CommaOk && good {
+					good, why = false, "the key is looked up without the presence flag"
+				}
+				out = append(out, verdict(good, rule, c.P.FuncID(fn)+" :: use of the `default` network decided by presence", c.P.InstrPos(lk), why,
+					why+": a service that lists `default` without settings (null value) is not counted as using it, so the implicit network is not added"))
+			}
+		}
+	}
+	if n == 0 {
+		out = append(out, bad(rule, "loader :: lookups of the default network", "", "no lookup of the key \"default\" in package loader: the rule sees nothing"))
+	}
+	return out
+}
+
+// TILDE (C12): `~` expands to the home directory: what is joined to it is the path without its first character
+// (the `~` the guard found), so that a bare `~` is the home directory itself.
+func (c *Ctx) TILDE(rule string) []report.Obligation {
+	f := c.P.Func("paths.ExpandUser")
+	if f == nil {
+		return []report.Obligation{anchorViolation(rule, "paths.ExpandUser")}
+	}
+	good, why, n := false, "no filepath.Join(home, rest) found", 0
+	for _, cs := range callSites(f, func(com *ssa.CallCommon) bool { return staticName(com) == "path/filepath.Join" }) {
+		sl, ok := cs.Common().Args[0].(*ssa.Slice)
+		if !ok {
+			continue
+		}
+		al, ok := sl.X.(*ssa.Alloc)
+		if !ok {
+			continue
+		}
+		var rest ssa.Value
+		for _, r := range *al.Referrers() {
+			if ia, ok := r.(*ssa.IndexAddr); ok {
+				if k, _ := constInt(ia.Index); k == 1 {
+					for _, rr := range *ia.Referrers() {
+						if st, ok := rr.(*ssa.Store); ok && st.Addr == ssa.Value(ia) {
+							rest = st.Val
+						}
+					}
+				}
+			}
+		}
+		if rest == nil {
+			continue
+		}
+		n++
+		switch x := rest.(type) {
+		case *ssa.Slice:
+			if k, isC := constInt(x.Low); isC && k == 1 && x.High == nil && sameParam(x.X, paramByType(f, "string")) {
+				good = true
+			} else {
+				why = "the remainder is not the path from its second character on"
+			}
+		case *ssa.Call:
+			sn := staticName(&x.Call)
+			if (sn == "strings.TrimPrefix" || sn == "strings.TrimLeft") && len(x.Call.Args) == 2 {
+				if s, ok := prog.ConstString(x.Call.Args[1]); ok && s == "~" && sn == "strings.TrimPrefix" {
+					good = true
+				} else {
+					why = "the prefix removed before joining is not exactly `~`"
+				}
+			} else {
+				why = "the remainder is computed by " + sn
+			}
+		default:
+			why = "the remainder is " + c.P.KeyTerm(rest, 2)
+		}
+	}
+	if n == 0 {
+		why = "no filepath.Join(home, rest) found"
+	}
+	return []report.Obligation{verdict(good, rule, "ExpandUser :: the home directory replaces exactly the leading `~`", c.P.Pos(f.Pos()),
+		"filepath.Join(home, p[1:])", why+": a bare `~` (or `~x`) no longer resolves to the home directory")}
+}
+
+// PATHLAST (C20, C01): decisions about a position in the model are taken by matching the whole tree.Path against
+// patterns. The last segment alone cannot tell an attribute name from a resource name chosen by the user (a
+// secret called `labels`): no branch or table lookup of the load pipeline is keyed on Path.Last().
+func (c *Ctx) PATHLAST(rule string) []report.Obligation {
+	var out []report.Obligation
+	n := 0
+	for _, fn := range c.P.Funcs {
+		id := c.P.FuncID(fn)
+		if strings.HasPrefix(id, "tree.") {
+			continue
+		}
+		for _, cs := range callSites(fn, func(com *ssa.CallCommon) bool { return c.calleeID(com) == "tree.(Path).Last" }) {
+			v, ok := cs.(ssa.Value)
+			if !ok {
+				continue
+			}
+			for _, use := range valueUses(v, 3) {
+				decides := false
+				switch u := use.(type) {
+				case *ssa.BinOp:
+					decides = u.Op == token.EQL || u.Op == token.NEQ
+				case *ssa.Lookup:
+					decides = true
+				case *ssa.If:
+					decides = true
+				}
+				if decides {
+					n++
+					out = append(out, bad(rule, id+" :: decision keyed on the last path segment", c.P.InstrPos(use),
+						"a branch or lookup is keyed on Path.Last(): at depth two the last segment is a name chosen by the user, so a resource named like an attribute (`labels`, `options`, `args`) is treated as that attribute"))
+				}
+			}
+		}
+	}
+	out = append(out, report.Obligation{Rule: rule, Key: "pipeline :: no decision keyed on Path.Last()", Status: report.Discharged, Why: fmt.Sprintf("%d decisions on the last segment found", n)})
 	return out
 }
